@@ -1135,9 +1135,9 @@ class ListTerm(PreTerm):
                 hasattr(vi, "item")
                 and hasattr(vi, "dtype")
                 and (vi.dtype.kind in "biuf")
-                and (not hasattr(vi, "__len__"))
+                and (getattr(vi, "ndim", 0) == 0)
             ):
-                vi = vi.item()  # a numpy number (not an array or a column)
+                vi = vi.item()  # a numpy number (not a column, nor an array with a length)
             return Value(vi)
 
         self.value = [as_term(vi) for vi in value]
